@@ -6,16 +6,16 @@ From Juniper Require Import Common.Base Iter.Syntax Iter.Config Iter.ModelBase I
   Iter.StreamModel Iter.Spec Iter.Contract Iter.SContract Iter.Fuel Iter.IterProofs.
 
 Definition ssrc_items (s : ssrc) : list Z :=
-  match s with SSIter i => isrc_items i | SSScript evs => script_den evs end.
+  match s with SSIter i => isrc_items i | SSScript evs | SSScriptNC evs => script_den evs end.
 
 Definition ssrc_fin (s : ssrc) : Prop :=
-  match s with SSIter i => isrc_items i = [] | SSScript evs => evs = [] end.
+  match s with SSIter i => isrc_items i = [] | SSScript evs | SSScriptNC evs => evs = [] end.
 
 (* sources of clean pipelines; with ae = false they may not even fail transiently *)
 Definition ssrc_ok (ae : bool) (s : ssrc) : Prop :=
   match s with
   | SSIter _ => True
-  | SSScript evs => no_fatal evs /\ (ae = false -> no_transient evs)
+  | SSScript evs | SSScriptNC evs => no_fatal evs /\ (ae = false -> no_transient evs)
   end.
 
 Fixpoint sden (s : sst) : list Z :=
@@ -72,27 +72,49 @@ with slok (ae : bool) (q : slst) : Prop :=
   | TRuns _ _ _ _ p => sok ae (pk_in p)
   end.
 
+(* one Next of a script without fatal errors (whoever asks, with whatever context) *)
+Lemma script_next_contract ae evs o evs' :
+  no_fatal evs /\ (ae = false -> no_transient evs) -> script_next evs = (o, evs') ->
+  (no_fatal evs' /\ (ae = false -> no_transient evs')) /\
+  post ae script_den (fun e => e = []) evs o evs' /\
+  (evs = [] -> evs' = [] /\ quiet ae o).
+Proof.
+  intros Hok Hc. destruct evs as [|[x|e|e] t]; simpl in Hc; injection Hc as ? ?; subst;
+    simpl in *.
+  - auto.
+  - destruct Hok as [H1 H2]. split; [auto|]. split; [reflexivity|]. intros Hx; discriminate.
+  - destruct Hok as [H1 H2]. destruct ae.
+    + split; [split; [exact H1|intros Hx; discriminate]|]. split; [auto|].
+      intros Hx; discriminate.
+    + destruct (H2 eq_refl).
+  - destruct Hok as [[] _].
+Qed.
+
+(* A source that looks at the context may fail with the context error only when failures are
+   allowed (live = false -> ae = true).  A source that ignores the context (SSScriptNC) answers
+   an expired context like a live one: it consumes the event it returns - whatever it hands
+   over has left its denotation, exactly as for a live call. *)
 Lemma ssrc_next_contract ae live src o src' :
   (live = false -> ae = true) -> ssrc_ok ae src -> ssrc_next live src = (o, src') ->
   ssrc_ok ae src' /\ post ae ssrc_items ssrc_fin src o src' /\
   (ssrc_fin src -> ssrc_fin src' /\ quiet ae o).
 Proof.
-  intros Hlive Hok Hc. unfold ssrc_next in Hc. destruct live; simpl in Hc.
-  - destruct src as [i|evs].
+  intros Hlive Hok Hc. unfold ssrc_next in Hc. destruct src as [i|evs|evs].
+  - destruct live; simpl in Hc.
     + pose proof (isrc_next_spec i) as Hs.
       destruct (isrc_next i) as [[x|] i'] eqn:E; injection Hc as ? ?; subst; simpl.
       * split; [exact I|]. split; [exact Hs|]. intros Hf. rewrite Hf in Hs. discriminate.
       * destruct Hs as [Hs1 Hs2]. subst i'. auto.
-    + destruct evs as [|[x|e|e] t]; injection Hc as ? ?; subst; simpl in *.
-      * auto.
-      * destruct Hok as [H1 H2]. split; [auto|]. split; [reflexivity|]. intros Hx; discriminate.
-      * destruct Hok as [H1 H2]. destruct ae.
-        -- split; [split; [exact H1|intros Hx; discriminate]|]. split; [auto|].
-           intros Hx; discriminate.
-        -- destruct (H2 eq_refl).
-      * destruct Hok as [[] _].
-  - injection Hc as ? ?; subst. simpl. specialize (Hlive eq_refl).
-    split; [exact Hok|]. split; [auto|]. auto.
+    + injection Hc as ? ?; subst. simpl. specialize (Hlive eq_refl). auto.
+  - destruct live; simpl in Hc.
+    + destruct (script_next evs) as [o1 evs1] eqn:E. injection Hc as ? ?; subst.
+      destruct (script_next_contract ae _ _ _ Hok E) as (H1 & H2 & H3).
+      split; [exact H1|]. split; [|exact H3]. destruct o; simpl in *; auto.
+    + injection Hc as ? ?; subst. simpl. specialize (Hlive eq_refl).
+      split; [exact Hok|]. split; [auto|]. auto.
+  - destruct (script_next evs) as [o1 evs1] eqn:E. injection Hc as ? ?; subst.
+    destruct (script_next_contract ae _ _ _ Hok E) as (H1 & H2 & H3).
+    split; [exact H1|]. split; [|exact H3]. destruct o; simpl in *; auto.
 Qed.
 
 (* ---- the master theorem for clean stream pipelines ---- *)
@@ -164,20 +186,33 @@ Proof. destruct s; simpl; lia. Qed.
 Lemma slsize_pos q : (1 <= slsize q)%nat.
 Proof. destruct q; simpl; lia. Qed.
 
+Lemma script_next_size evs o evs' :
+  script_next evs = (o, evs') ->
+  (match o with Item _ => length evs' < length evs | _ => length evs' <= length evs end)%nat
+  /\ o <> Out.
+Proof.
+  destruct evs as [|[x|e|e] t]; simpl; intros Hc; injection Hc as ? ?; subst; simpl;
+    split; try lia; discriminate.
+Qed.
+
 Lemma ssrc_next_size live src o src' :
   ssrc_next live src = (o, src') ->
   (match o with Item _ => ssrc_size src' < ssrc_size src | _ => ssrc_size src' <= ssrc_size src end)%nat
   /\ o <> Out.
 Proof.
-  unfold ssrc_next. destruct live; simpl.
-  - destruct src as [i|evs].
+  unfold ssrc_next. destruct src as [i|evs|evs].
+  - destruct live; simpl.
     + pose proof (isrc_next_size i) as Hs.
       destruct (isrc_next i) as [[x|] i'] eqn:E; intros Hc; injection Hc as ? ?; subst; simpl.
       * split; [exact Hs|discriminate].
       * split; [lia|discriminate].
-    + destruct evs as [|[x|e|e] t]; intros Hc; injection Hc as ? ?; subst; simpl;
-        split; try lia; discriminate.
-  - intros Hc. injection Hc as ? ?; subst. split; [lia|discriminate].
+    + intros Hc. injection Hc as ? ?; subst. simpl. split; [lia|discriminate].
+  - destruct live; simpl.
+    + destruct (script_next evs) as [o1 evs1] eqn:E. intros Hc. injection Hc as ? ?; subst.
+      exact (script_next_size _ _ _ E).
+    + intros Hc. injection Hc as ? ?; subst. simpl. split; [lia|discriminate].
+  - destruct (script_next evs) as [o1 evs1] eqn:E. intros Hc. injection Hc as ? ?; subst.
+    exact (script_next_size _ _ _ E).
 Qed.
 
 Theorem snext_size live : forall f, szZ (snext f live) ssize f /\ szL (slnext f live) slsize f.
@@ -249,7 +284,7 @@ Qed.
 (* ---- initial states ---- *)
 Lemma ssrc_init_items s : ssrc_items (ssrc_init s) = src_items s.
 Proof.
-  destruct s as [l|n|x n| |l|evs]; simpl; try reflexivity.
+  destruct s as [l|n|x n| |l|evs|evs]; simpl; try reflexivity.
   unfold counter_items. rewrite Z.sub_0_r. apply map_ext. intros k. lia.
 Qed.
 
@@ -397,4 +432,100 @@ Proof.
   pose proof (srun_steps_legal (sort_ids (pipe_ids p)) lives (srun_init p) []
                 (srun_init_ok true p Hc)) as H.
   rewrite E in H. simpl in H. rewrite srun_init_den in H. exact H.
+Qed.
+
+(* ---- C08, retry half, against the fault-erased all-live twin ----
+   All of the above holds for every kind of source, in particular for sources that ignore the
+   context (SScriptNC): a Next with an expired context makes such a source hand over (and
+   consume) its next event, and whatever a combinator pulled that way it either delivers in the
+   same call or keeps in its state - [snext_contract] says so call by call ([post]: an Item
+   moves exactly one item out of the denotation, an error leaves the denotation as it is). *)
+Lemma erase_transient_den evs : script_den (erase_transient evs) = script_den evs.
+Proof. induction evs as [|[x|e|e] t IH]; simpl; auto. rewrite IH. reflexivity. Qed.
+
+Lemma erase_transient_ok evs :
+  no_fatal evs -> no_fatal (erase_transient evs) /\ no_transient (erase_transient evs).
+Proof. induction evs as [|[x|e|e] t IH]; simpl; auto. intros []. Qed.
+
+Lemma src_erase_items s : src_items (src_erase s) = src_items s.
+Proof. destruct s; simpl; try reflexivity; apply erase_transient_den. Qed.
+
+Lemma erase_den :
+  (forall p, den_z (pz_erase p) = den_z p) /\ (forall q, den_l (pl_erase q) = den_l q).
+Proof.
+  apply pipe_ind; simpl; intros; try (rewrite H; reflexivity).
+  - apply src_erase_items.
+  - f_equal. rewrite map_map. apply map_ext_Forall. exact H.
+  - f_equal. rewrite map_map. apply map_ext_Forall. exact H.
+Qed.
+
+Lemma erase_ok :
+  (forall p, okz true p -> okz false (pz_erase p)) /\
+  (forall q, okl true q -> okl false (pl_erase q)).
+Proof.
+  apply pipe_ind; simpl; intros; auto.
+  - destruct s; simpl in *; auto;
+      (destruct H as [Hf _]; destruct (erase_transient_ok _ Hf) as [H1 H2]; split; auto).
+  - destruct H0; auto.
+  - induction H as [|x t Hx Ht IH]; simpl in *; [exact I|]. destruct H0 as [H1 H2]. split; auto.
+  - induction H as [|x t Hx Ht IH]; simpl in *; [exact I|]. destruct H0 as [H1 H2]. split; auto.
+  - destruct H0; auto.
+  - destruct H0; auto.
+  - destruct H0; auto.
+Qed.
+
+Lemma pipe_erase_den p : den (pipe_erase p) = den p.
+Proof.
+  destruct p as [p|q]; simpl; [rewrite (proj1 erase_den)|rewrite (proj2 erase_den)]; reflexivity.
+Qed.
+Lemma pipe_erase_ok p : okp true p -> okp false (pipe_erase p).
+Proof. destruct p as [p|q]; simpl; [apply (proj1 erase_ok)|apply (proj2 erase_ok)]. Qed.
+
+(* a legal trace delivers a prefix of the denotation, all of it if it reports the end *)
+Lemma legal_items : forall rs l,
+  legal l rs -> exists rest, l = items_of rs ++ rest /\ (In REnd rs -> rest = []).
+Proof.
+  induction rs as [|r rs IH]; intros l H; simpl in *.
+  - exists l. split; [reflexivity|intros []].
+  - destruct r as [x| |e| | | |]; try contradiction.
+    + destruct l as [|y l']; [contradiction|]. destruct H as [Hx H]. subst y.
+      destruct (IH _ H) as (rest & Hl & He). exists rest. split; [simpl; rewrite Hl at 1; auto|].
+      intros [Hd|Hi]; [discriminate|auto].
+    + destruct H as [Hl H]. subst l. destruct (IH _ H) as (rest & Hl & He).
+      exists []. split; [|auto]. rewrite app_nil_r.
+      destruct (items_of rs); [reflexivity|discriminate].
+    + destruct (IH _ H) as (rest & Hl & He). exists rest. split; [exact Hl|].
+      intros [Hd|Hi]; [discriminate|auto].
+Qed.
+
+Lemma expect_prefix (a rest : list item) : expect (a ++ rest) (length a) = map RItem a.
+Proof. induction a as [|x a IH]; simpl; [reflexivity|]. rewrite IH. reflexivity. Qed.
+Lemma expect_all_end (a : list item) : expect a (S (length a)) = map RItem a ++ [REnd].
+Proof.
+  induction a as [|x a IH]; [reflexivity|].
+  change (expect (x :: a) (S (length (x :: a)))) with (RItem x :: expect a (S (length a))).
+  rewrite IH. reflexivity.
+Qed.
+
+(* Any pipeline without unretryable faults, any sources (context-ignoring ones included), any
+   number and placement of transient source errors and of calls with an expired context: the
+   items delivered are exactly the items the fault-erased twin delivers to as many calls with
+   a live context - nothing lost, nothing duplicated, nothing reordered - and when the run
+   reports the end, the twin's next call reports the end too. *)
+Theorem stream_retry_twin cfg p lives :
+  okp true p ->
+  let rs := results (run_stream_cfg cfg p (Steps (map CNext lives))) in
+  let n := length (items_of rs) in
+  results (run_stream_cfg cfg (pipe_erase p) (Steps (map CNext (repeat true n))))
+  = map RItem (items_of rs) /\
+  (In REnd rs ->
+   results (run_stream_cfg cfg (pipe_erase p) (Steps (map CNext (repeat true (S n)))))
+   = map RItem (items_of rs) ++ [REnd]).
+Proof.
+  intros Hok rs n.
+  destruct (legal_items _ _ (stream_steps_legal cfg p lives Hok)) as (rest & Hl & He).
+  fold rs in Hl, He. pose proof (pipe_erase_ok p Hok) as Hok'. split.
+  - rewrite (stream_steps_den cfg _ n Hok'), pipe_erase_den, Hl. apply expect_prefix.
+  - intros Hend. rewrite (stream_steps_den cfg _ (S n) Hok'), pipe_erase_den, Hl, (He Hend).
+    rewrite app_nil_r. apply expect_all_end.
 Qed.
